@@ -266,6 +266,9 @@ func DiffDisk(want, got Disk, extrasOK bool) string {
 	return ""
 }
 
+// FirstDiff is the index of the first differing byte (the shorter length when one is a prefix).
+func FirstDiff(a, b []byte) int { return firstDiff(a, b) }
+
 func firstDiff(a, b []byte) int {
 	n := len(a)
 	if len(b) < n {
